@@ -9,6 +9,7 @@ tokens, and the adapter image of picotool's tree equals the skeleton given by th
 from lib import asttools
 from lib import luagen as L
 from lib import reflex
+from lib import core
 from lib.core import ShardResult, h64
 
 LEVEL = 'exploration'
@@ -365,7 +366,7 @@ def check_program(prog, src, res, desc, family):
         parts = src.split(b'\n')
         chunks = [p_ + b'\n' for p_ in parts[:-1]] + ([parts[-1]] if parts[-1] else [])
     try:
-        obj = lua.Lua.from_lines(chunks, version=8)
+        obj = lua.Lua.from_lines(chunks, version=core.lua_version(src))
     except Exception as e:
         if qp:
             res.violation('C08|qprint|parse-raise', 'valid program %r with a ? print statement: %s: %s' % (
